@@ -90,8 +90,10 @@ class AbstractSourceSinkGraph(nx.DiGraph):
             if self.base_graph.out_degree(u) == 0 or u in self.additional_ends:
                 self.add_edge(u, self.sink)
 
-        self.source_edges = list(self.out_edges(self.source))
-        self.sink_edges = list(self.in_edges(self.sink))
+        # Without any start (end) the source (sink) is not a node of the graph, and networkx would then take its
+        # name for a container of nodes, i.e. look up its characters
+        self.source_edges = list(self.out_edges(self.source)) if self.source in self else []
+        self.sink_edges = list(self.in_edges(self.sink)) if self.sink in self else []
         self.source_sink_edges = set(self.source_edges + self.sink_edges)
 
     # ----------------------- Shared helper methods -----------------------
